@@ -9,7 +9,6 @@ import (
 	"context"
 	"crypto/tls"
 	"encoding/json"
-	"encoding/pem"
 	"errors"
 	"fmt"
 	"io"
@@ -129,6 +128,7 @@ func runACME(k *Case) result {
 	after := count()
 
 	cl, got, valid := "err", "none", 0
+	var hs []handed
 	var o struct {
 		Status      string `json:"status"`
 		Certificate string `json:"certificate"`
@@ -137,8 +137,9 @@ func runACME(k *Case) result {
 		cl = "ok"
 		// the certificate the response points to, fetched as the client would
 		if r2 := env.Post(acct, acmeenv.Path("acme", "certificate", acmeenv.LastPathElem(o.Certificate)), nil); r2.Code == 200 {
-			if blk, _ := pem.Decode(r2.Body.Bytes()); blk != nil {
+			if h, ok := x509Handed(r2.Body.String()); ok {
 				got = "cert"
+				hs = append(hs, h)
 			}
 		}
 	} else if rec.Code == 200 {
@@ -151,11 +152,12 @@ func runACME(k *Case) result {
 		fmt.Fprintf(os.Stderr, "%s -> %d %s\n", k.render()[:70], rec.Code, acmeenv.Class(rec))
 	}
 	d := func(t string) int { return after[t] - before[t] }
-	fc := failClosed(cl, got, ev, ids, d("x509_certs"), 1, 0, "na", false)
+	nrec := e.recorded(hs)
+	fc := failClosed(cl, got, ev, ids, len(hs), nrec, 1, 0, "na", false)
 	if cl == "ok" && (d("acme_certs") == 0 || got != "cert") {
 		fc = "BROKEN"
 	}
-	out := fmt.Sprintf("%s got=%s tok=0 stored=%d data=%d acme=%d valid=%d fc=%s trace=%s", cl, got,
-		d("x509_certs"), d("x509_certs_data"), d("acme_certs"), valid, fc, c.List(ev))
+	out := fmt.Sprintf("%s got=%s tok=0 stored=%d data=%d acme=%d valid=%d handed=%d recorded=%d fc=%s trace=%s", cl, got,
+		d("x509_certs"), d("x509_certs_data"), d("acme_certs"), valid, len(hs), nrec, fc, c.List(ev))
 	return result{out: out, trace: ev}
 }
